@@ -286,9 +286,11 @@ func (e *eventLog) emit(tag string) {
 }
 
 // judgeEvents: every emitted event exactly once per sink; nothing else on a sink.
+// judgeOrder lists the sinks on which arrival order is demanded (handlers of the undrained-channel
+// scenario: they are called synchronously by the one incoming loop).
 // lenient lists the sinks whose documented behaviour is to discard when full (the bounded event
 // channel, when more events were emitted than it can hold): a missing event is counted there.
-func judgeEvents(e *eventLog, quiescent bool, lenient map[string]bool) (classes []string, dropped int, orderAnomalies int) {
+func judgeEvents(e *eventLog, quiescent bool, lenient, judgeOrder map[string]bool) (classes []string, dropped int, orderAnomalies int) {
 	e.mu.Lock()
 	defer e.mu.Unlock()
 	add := func(c string) {
@@ -347,7 +349,10 @@ func judgeEvents(e *eventLog, quiescent bool, lenient map[string]bool) (classes 
 				j++
 			}
 			if j == len(e.emitted) {
-				orderAnomalies++ // the statement does not speak about event order: counted only
+				if judgeOrder[sink] {
+					add("event/order")
+				}
+				orderAnomalies++ // elsewhere the order of events is counted only
 				break
 			}
 			j++
